@@ -275,6 +275,22 @@ func (x *c03) loopbackReceiveFrag(kind string, stream []byte, sizes []int, lim i
 		}
 		c.Stat("direct_frames", 1)
 	}
+	if x.limitExpect != nil {
+		// the limit is per packet, whatever the grouping into messages: the packets before the
+		// first one longer than the limit are delivered, then ErrReadLimitExceeded
+		want := *x.limitExpect
+		x.limitExpect = nil
+		same := len(got) == len(want) && rerr == packet.ErrReadLimitExceeded
+		for i := 0; same && i < len(want); i++ {
+			same = hx.PktText(want[i]) == hx.PktText(got[i])
+		}
+		if same {
+			c.Emit("direct c03_limit_refuses %d ok", n)
+		} else {
+			c.Emit("direct c03_limit_refuses %d FAIL over %s with limit %d: expected %d packets then the read limit error, got %d then %v", n, kind, lim, len(want), len(got), rerr)
+		}
+		c.Stat("direct_limit_first", 1)
+	}
 	if n%23 == 0 {
 		c.Sample(fmt.Sprintf("loopback %s: %d bytes in %d fragments -> %d packets, %s", kind, len(stream), len(sizes), len(got), errKindNet(rerr)))
 	}
@@ -334,6 +350,7 @@ func (x *c03) loopbackSend(kind string, ps []packet.Generic, asyncs []bool, dela
 func (x *c03) loopbackQuick() {
 	c := x.c
 	r := c.Rng
+	x.loopbackLimit()
 	small := func(k int) []packet.Generic {
 		var ps []packet.Generic
 		for ; k > 0; k-- {
@@ -397,6 +414,154 @@ func (x *c03) loopbackQuick() {
 		}
 		if i%3 == 0 {
 			x.loopbackSend(k.kind, k.ps, asyncs, []time.Duration{0, time.Millisecond}[r.Intn(2)])
+		}
+	}
+}
+
+// loopbackLibrarySender: a library connection (transport.Dial) sends ps with the given async
+// flags under a long flush delay, so buffered sends are coalesced into one carrier write (one
+// WebSocket message); the accepting side has read limit lim.  Judged directly (every packet
+// fits the limit: all must arrive, in order) and by the model over the concatenated bytes.
+func (x *c03) loopbackLibrarySender(kind string, ps []packet.Generic, asyncs []bool, lim int64) {
+	x.n++
+	n := x.n
+	c := x.c
+	cl, srv, stop, err := connPair(kind)
+	if err != nil {
+		c.Stat("loopback_unavailable", 1)
+		return
+	}
+	defer stop()
+	srv.SetReadLimit(lim) // before the first frame is read
+	cl.SetMaxWriteDelay(time.Hour)
+	stream := concatPackets(ps)
+	x.emitOracle(stream)
+	if kind == "ws" {
+		c.Emit("case %d ws lim=%d frag=0 msgs=b:%s end=close", n, lim, hx.Hx(stream))
+	} else {
+		c.Emit("case %d tcp lim=%d stream=%s", n, lim, hx.Hx(stream))
+	}
+	smsg := ""
+	for i, p := range ps {
+		if err := cl.Send(p, asyncs[i]); err != nil {
+			smsg = fmt.Sprintf("Send %d failed: %v", i, err)
+			break
+		}
+	}
+	var texts []string
+	var got []packet.Generic
+	var rerr error
+	ok := call(func() {
+		for len(got) < len(ps) {
+			p, err := srv.Receive()
+			if err != nil {
+				rerr = err
+				return
+			}
+			got = append(got, p)
+			texts = append(texts, hx.PktText(p))
+		}
+		// everything arrived: end the stream the clean way and see the EOF
+		go func() { _ = cl.Close() }()
+		_, rerr = srv.Receive()
+	})
+	_ = cl.Close()
+	_ = srv.Close()
+	if !ok {
+		c.Emit("direct c19_nohang %d FAIL Receive over %s did not return", n, kind)
+		return
+	}
+	pk := "-"
+	if len(texts) > 0 {
+		pk = strings.Join(texts, "/")
+	}
+	c.Emit("impl %d pkts=%s err=%s", n, pk, errKindNet(rerr))
+	same := smsg == "" && len(got) == len(ps)
+	for i := 0; same && i < len(ps); i++ {
+		same = hx.PktText(ps[i]) == hx.PktText(got[i])
+	}
+	if same {
+		c.Emit("direct c03_frames %d ok", n)
+	} else {
+		c.Emit("direct c03_frames %d FAIL library sender over %s, read limit %d, %d packets of at most %d bytes (%d bytes flushed together): got %d then %v %s",
+			n, kind, lim, len(ps), maxLen(ps), len(stream), len(got), rerr, smsg)
+	}
+	c.Stat("direct_frames", 1)
+	c.Stat("loopback_runs", 1)
+	c.Stat("loopback_library_sender_"+kind, 1)
+}
+
+func maxLen(ps []packet.Generic) int {
+	m := 0
+	for _, p := range ps {
+		if p.Len() > m {
+			m = p.Len()
+		}
+	}
+	return m
+}
+
+// loopbackLimit: the read limit over real carriers is per PACKET, not per message / segment.
+func (x *c03) loopbackLimit() {
+	r := x.c.Rng
+	pub := func(total int) packet.Generic { return publishOfLen(r, total) }
+	for round := 0; round < 2; round++ {
+		L := []int{128, 300}[round]
+		fit := func(k int) []packet.Generic {
+			var ps []packet.Generic
+			for ; k > 0; k-- {
+				ps = append(ps, pub(L-r.Intn(L/3)))
+			}
+			return ps
+		}
+		for _, kind := range []string{"ws", "tcp"} {
+			if kind == "tcp" && round == 1 {
+				continue
+			}
+			// (a) k buffered sends + one flushed send from a library sender, each <= L, total > L
+			k := 3 + r.Intn(4)
+			ps := fit(k + 1)
+			asyncs := make([]bool, k+1)
+			for i := 0; i < k; i++ {
+				asyncs[i] = true
+			}
+			x.loopbackLibrarySender(kind, ps, asyncs, int64(L))
+			// (b) raw messages holding 2..5 packets each <= L, total > L
+			for _, per := range []int{2, 5} {
+				ps := fit(per * 2)
+				stream := concatPackets(ps)
+				var sizes []int
+				for i := 0; i < len(ps); i += per {
+					sz := 0
+					for _, p := range ps[i : i+per] {
+						sz += p.Len()
+					}
+					sizes = append(sizes, sz)
+				}
+				x.loopbackReceiveFrag(kind, stream, sizes, int64(L), -1, true, ps, 0)
+			}
+			// (c) one packet > L inside a message after packets <= L: the earlier ones arrive, then the limit error
+			{
+				before := fit(2 + r.Intn(2))
+				ps := append(append([]packet.Generic{}, before...), pub(L+1+r.Intn(50)), pub(L/2))
+				stream := concatPackets(ps)
+				x.limitExpect = &before
+				x.loopbackReceiveFrag(kind, stream, oneChunk(len(stream)), int64(L), -1, true, nil, 0)
+				x.limitExpect = &before
+				x.loopbackReceiveFrag(kind, stream, randomSizes(r, len(stream), 40), int64(L), -1, true, nil, 0)
+			}
+			// (d) controls: one packet per message; one packet chunked over several messages; a packet of exactly L
+			{
+				ps := append(fit(3), pub(L))
+				stream := concatPackets(ps)
+				var sizes []int
+				for _, p := range ps {
+					sizes = append(sizes, p.Len())
+				}
+				x.loopbackReceiveFrag(kind, stream, sizes, int64(L), -1, true, ps, 0)
+				one := []packet.Generic{pub(L)}
+				x.loopbackReceiveFrag(kind, concatPackets(one), randomSizes(r, L, L/4), int64(L), -1, true, one, 0)
+			}
 		}
 	}
 }
